@@ -242,6 +242,22 @@ class C18(Check):
               noisefree_unit(("J",), shared_x0=True)]
         if tier != "quick":
             us += [glue_unit(2, True, True, "Normal"), glue_unit(2, True, True, "Poisson"), noisefree_unit(("R", "S", "J"))]
+            # every loss class x every lb/ub presence x both numbers of free parameters; every selection/target order for the noise-free corollary
+            for kind in ("Square", "Normal", "Poisson", "Gamma", "NegBinom"):
+                for n_ in (1, 2):
+                    for lbg, ubg in ((True, True), (True, False), (False, True), (False, False)):
+                        if kind == "Square" and n_ == 2:
+                            continue        # already in the quick list
+                        us.append(glue_unit(n_, lbg, ubg, kind))
+            from .c06 import SELECTIONS, TARGETS
+            seen = {u.name for u in us}
+            for sel in SELECTIONS:
+                for tp in TARGETS:
+                    u = noisefree_unit(tuple(sel), tuple(tp) if tp is not None else None)
+                    if u.name not in seen:
+                        seen.add(u.name)
+                        us.append(u)
+            us.append(noisefree_unit(("R", "J"), shared_x0=True))
         return us
 
 
